@@ -7,6 +7,8 @@ import (
 	"errors"
 	"fmt"
 	"io"
+	"net"
+	"os"
 	"time"
 
 	kafka "github.com/segmentio/kafka-go"
@@ -56,6 +58,14 @@ func ErrString(err error) string {
 		return "io.EOF"
 	case errors.Is(err, io.ErrNoProgress):
 		return "io.ErrNoProgress"
+	case errors.Is(err, context.Canceled):
+		return "context.Canceled"
+	}
+	// a read deadline and the context deadline expire at the same virtual instant; which
+	// one is reported first is up to the runtime, so both are called "timeout"
+	var ne net.Error
+	if errors.Is(err, context.DeadlineExceeded) || errors.Is(err, os.ErrDeadlineExceeded) || (errors.As(err, &ne) && ne.Timeout()) {
+		return "timeout"
 	}
 	s := err.Error()
 	if len(s) > 100 {
